@@ -174,6 +174,7 @@ def answer : List String → String
     | _, _ => "bad-op"
   | ["expect-reject", _] => "-"
   | ["expect-none"] => "-"
+  | "run-known" :: _ => "not-compared"
   | "run" :: spec =>
     match pSim spec with
     | some s => expectLine s
